@@ -397,6 +397,23 @@ func (e *Expression) UnmarshalJSON(data []byte) (err error) {
 		if err != nil {
 			return err
 		}
+
+		// an integer bound is read from its own text: the float64 that encoding/json makes of a
+		// number cannot hold every int
+		var raw struct {
+			Min json.RawMessage `json:"min"`
+			Max json.RawMessage `json:"max"`
+		}
+		err = json.Unmarshal(c.Right, &raw)
+		if err != nil {
+			return err
+		}
+		if i, ierr := strconv.Atoi(string(raw.Min)); ierr == nil {
+			boundary.Min = i
+		}
+		if i, ierr := strconv.Atoi(string(raw.Max)); ierr == nil {
+			boundary.Max = i
+		}
 		if !IsExpr(boundary.Min) {
 			boundary.Min = literalToExpr(toIntIfNecessary(boundary.Min))
 		}
